@@ -358,7 +358,8 @@ class MonthlyChartSpec(Spec):
         return MonthlyChart
 
     def gen(self, rng):
-        return {'ap': rng.choice([APS[0], APS[1], APS[4], APS[3]]), 'seed': rng.randrange(1000),
+        return {'ap': APS[0] if rng.random() < 0.08 else rng.choice([APS[1], APS[4], APS[3]]),
+                'seed': rng.randrange(1000),
                 'kinds': rng.choice([['temp'], ['temp', 'rh'], ['energy', 'energy'], ['energy', 'temp']]),
                 'form': rng.choice(['hourly', 'monthly', 'daily', 'mph']), 'stack': rng.random() < 0.4,
                 'lp': rng.choice([None, {'min': -20, 'max': 60}, {'segment_count': 6}])}
@@ -540,7 +541,7 @@ RULE = ('correspondence: (wind) random constructor arguments + 0-12 setter calls
         'a fresh object; (trace) attribute reads/writes of every getter/setter recorded on a tracing subclass must '
         'be inside the static table. oracle: per class random permutations/repetitions of all public properties on '
         'one object vs first reads on fresh objects, and setter histories with interleaved reads vs a fresh object '
-        'built with the final settings; WindProfile identity and monotonicity. A case is non-trivial when it '
+        'built with the final settings; every EPW header setter / plain header attribute as the FIRST operation on a fresh EPW(path) followed by reads vs an EPW whose header was imported before the same call (argument must stay unchanged); cross-object histories (2-4 objects of one class with different settings, incl. analysis periods covering the same minutes of the year with different leap flags / time steps, read interleaved) vs first reads evaluated in a forked fresh process; WindProfile identity and monotonicity. A case is non-trivial when it '
         'performs at least one read after another read or setter; distinct = distinct (op, input)')
 TRUSTED_BASE = [
     'translator tools/extract/lazy_deps.py: that the read/write sets it derives over-approximate what the getter/'
@@ -556,6 +557,8 @@ TRUSTED_BASE = [
     'Float pow/log of the driver vs CPython (same libm; compared within 1e-12 relative)',
 ]
 ASSUMPTIONS = ['heights and speeds passed to calculate_wind are >= 0',
+               'SQLiteResult.reporting_frequency and the order of available_outputs(_info)/component_types come from a '
+               'set iteration and depend on the process hash seed: compared inside one process only',
                'EPW.is_header_loaded / is_data_loaded report the loading state itself and are excluded from the '
                'order-independence claim']
 TECHNIQUE = ('Lean 4 proof (induction over read/setter histories of a generic memo object and of the WindProfile state '
